@@ -19,6 +19,7 @@ const (
 	classV6NoExpiry = "C02-K-v6-no-lease-expiry"
 	classV6Orphan   = "C02-K-v6-advertise-without-binding-never-reclaimed"
 	classV6Decline  = "C02-K-v6-decline-handled-as-release"
+	classV6Anycast  = "C02-K-v6-allocator-hands-out-subnet-anycast"
 )
 
 var reTwoCircuits = regexp.MustCompile(`\(circuit "([^"]*)"\) and \S+ \(circuit "([^"]*)"\)`)
@@ -47,5 +48,20 @@ func classify(v *report.Violation) {
 		if v.Kind == "O1-ack-offered-to-other" && strings.Contains(v.Detail, "offer made through the circuit-id index") {
 			v.Class = classV4Circuit
 		}
+	case strings.HasPrefix(v.Part, "dhcpv6"):
+		// the v6 server keeps no record of declined addresses at all (handleDecline = handleRelease):
+		// a declined address going out again is always this root cause
+		if v.Kind == "O5-declined-reoffered" && traceHas(v, ":DECLINE") {
+			v.Class = classV6Decline
+		}
+		// ... and the same shortcut releases the decliner's delegated PREFIX although only the
+		// address was declined: the prefix is then bound to someone else while its holder still has it
+		if v.Kind == "O1-ack-leased-to-other" && strings.Contains(v.Detail, "binds prefix") {
+			if m := reHolder.FindStringSubmatch(v.Detail); m != nil && traceHas(v, m[1]+":DECLINE") {
+				v.Class = classV6Decline
+			}
+		}
 	}
 }
+
+var reHolder = regexp.MustCompile(`which (\S+) holds \(unexpired\)`)
